@@ -531,6 +531,13 @@ where
         is_some_and_any_in(token, walk::ending, is_boundary)
     }
 
+    fn has_starting_root<A>(token: &Token<'_, A>) -> bool {
+        walk::starting(token)
+            .map(TokenEntry::into_token)
+            .filter_map(Token::as_leaf)
+            .any(token::LeafKind::is_rooting)
+    }
+
     fn has_starting_zom<A>(token: Option<&Token<'_, A>>) -> bool {
         is_some_and_any_in(token, walk::starting, is_zom)
     }
@@ -681,6 +688,19 @@ where
                     inner,
                 ))
             },
+            // The alternation is preceded by a termination; disallow sub-globs that begin with a
+            // rooted branch.
+            //
+            // For example, `{</foo:1,>,bar}`.
+            Only((inner, None)) | StartEnd((inner, None), _)
+                if left.is_none() && has_starting_root(inner) =>
+            {
+                Err(CorrelatedError::new(
+                    RuleErrorKind::RootedSubGlob,
+                    left,
+                    inner,
+                ))
+            },
             _ => Ok(()),
         }
     }
@@ -716,6 +736,19 @@ where
             Only((inner, Some(Wildcard(Tree { has_root: true }))))
             | StartEnd((inner, Some(Wildcard(Tree { has_root: true }))), _)
                 if left.is_none() && lower.is_unbounded() =>
+            {
+                Err(CorrelatedError::new(
+                    RuleErrorKind::RootedSubGlob,
+                    left,
+                    inner,
+                ))
+            },
+            // The repetition is preceded by a termination; disallow sub-globs that begin with a
+            // rooted branch with a zero lower bound.
+            //
+            // For example, `<{/foo}:0,>`.
+            Only((inner, None)) | StartEnd((inner, None), _)
+                if left.is_none() && lower.is_unbounded() && has_starting_root(inner) =>
             {
                 Err(CorrelatedError::new(
                     RuleErrorKind::RootedSubGlob,
